@@ -113,6 +113,8 @@ theorem fromPlan_tys (st : Store) : ∀ (f : From), (fromPlan f).tys st = f.tys 
     cases st[t]? <;> rfl
   | .join k l r on => by
     simp only [fromPlan, Plan.tys, From.tys, fromPlan_tys st l, fromPlan_tys st r]
+  | .derived f w items => by
+    cases w <;> simp only [fromPlan, Plan.tys, From.tys, fromPlan_tys st f]
 
 theorem evalFrom_plan (st : Store) : ∀ (f : From), evalFrom {} st.db f = evalPlanE st (fromPlan f)
   | .table t => by
@@ -133,6 +135,16 @@ theorem evalFrom_plan (st : Store) : ∀ (f : From), evalFrom {} st.db f = evalP
         | ok _ =>
           simp only [Except.ok.injEq]
           congr 1
+  | .derived f w items => by
+    cases w with
+    | none =>
+      simp only [evalFrom, fromPlan, evalPlanE, applyWhere, evalFrom_plan st f, fromPlan_tys]
+      cases evalPlanE st (fromPlan f) <;> rfl
+    | some e =>
+      simp only [evalFrom, fromPlan, evalPlanE, applyWhere, evalFrom_plan st f, fromPlan_tys, Plan.tys]
+      cases evalPlanE st (fromPlan f) with
+      | error x => rfl
+      | ok rows => cases filterRows (evalPred {} (f.tys st.db) e) rows <;> rfl
 
 /-- a query without aggregates, ORDER BY, DISTINCT, LIMIT and OFFSET: FROM → WHERE → projection -/
 def plainQuery (q : Select) : Bool :=
